@@ -65,7 +65,38 @@ impl Drop for CaseDir {
     }
 }
 
+static SECOND_MOUNT: std::sync::OnceLock<Option<PathBuf>> = std::sync::OnceLock::new();
+
+/// A second real block device: a 48 MiB ext4 image loop-mounted below /var/tmp (needs root and
+/// loop devices; None when that is not possible). fclones' disk detection lists it as a separate
+/// device and mount point, unlike tmpfs.
+pub fn second_mount() -> Option<PathBuf> {
+    SECOND_MOUNT
+        .get_or_init(|| {
+            let base = PathBuf::from(format!("/var/tmp/fcvw/p{}", std::process::id()));
+            std::fs::create_dir_all(&base).ok()?;
+            let img = base.join("loop.img");
+            let mnt = base.join("loopmnt");
+            std::fs::create_dir_all(&mnt).ok()?;
+            let f = std::fs::File::create(&img).ok()?;
+            f.set_len(48 * 1024 * 1024).ok()?;
+            drop(f);
+            let ok = |c: &mut Command| c.stdout(Stdio::null()).stderr(Stdio::null()).status().map(|s| s.success()).unwrap_or(false);
+            if !ok(Command::new("mkfs.ext4").arg("-q").arg("-F").arg(&img)) {
+                return None;
+            }
+            if !ok(Command::new("mount").arg("-o").arg("loop").arg(&img).arg(&mnt)) {
+                return None;
+            }
+            Some(mnt)
+        })
+        .clone()
+}
+
 pub fn cleanup_process_scratch() {
+    if let Some(Some(m)) = SECOND_MOUNT.get() {
+        let _ = Command::new("umount").arg("-l").arg(m).stdout(Stdio::null()).stderr(Stdio::null()).status();
+    }
     for top in ["/dev/shm/fcvw", "/var/tmp/fcvw"] {
         let _ = std::fs::remove_dir_all(format!("{}/p{}", top, std::process::id()));
     }
